@@ -76,6 +76,8 @@ vector<string> ApplicationTools::matchingParameters(const string& pattern, vecto
     if (pos1 != 0)
       flag = false;
     pos1 += g.length();
+    if (!stj.hasMoreToken() && pos1 != parn.length())
+      flag = false; // No wildcard in the pattern: the whole name must match.
     while (flag && stj.hasMoreToken())
     {
       g = stj.nextToken();
